@@ -33,7 +33,7 @@ def rand_sp18(rng):
 
 # keys that are string prefixes of one another without being nested ('opt' / 'opt_level'), digit-string keys
 # (list index look-alikes), and a deep parent with several leaves
-RICH_KEYS = ["opt", "opt_level", "o", "0", "1", "m"]
+RICH_KEYS = ["opt", "opt_level", "o", "0", "1", "m", "disp", "", "n"]
 RICH_SCALARS = [0, 1, 2, 1.0, 0.5, True, False, None, "x", "y", "0", 128, 64]
 
 
@@ -45,7 +45,7 @@ def rich_value(rng, depth):
         return [rng.choice([64, 32, 128, 1, 1.0, "x"]) for _ in range(rng.randint(0, 3))]
     if r < 0.7:
         return {}
-    keys = rng.sample(["0", "1", "lr", "beta", "o", "opt"], rng.randint(1, 3))
+    keys = rng.sample(["0", "1", "lr", "beta", "o", "opt", "sp", "x", ""], rng.randint(1, 3))
     return {k: rich_value(rng, depth + 1) for k in keys}
 
 
@@ -104,6 +104,8 @@ def gen_inputs(tier, rng):
     descs.append({"jobs": [typed({"opt": {}, "opt_level": 1}), typed({"opt": {}, "opt_level": 2})], "pseed": 7})
     descs.append({"jobs": [typed({"layers": [64, 32]}), typed({"layers": {"0": 128}}), typed({"layers": {"0": 64, "1": 32}})], "pseed": 8})
     descs.append({"jobs": [typed({"m": {"o": {"lr": 1, "beta": 2}, "n": 0}}), typed({"m": {"o": {"lr": 3, "beta": 4}, "n": 0}})], "pseed": 9})
+    descs.append({"jobs": [typed({"disp": {"x": 1}, "dix": 5}), typed({"disp": {"x": 2}, "n": {"sp": {"k": 1}}, "dix": 5})], "pseed": 10})
+    descs.append({"jobs": [typed({"": {"x": 1}, "x": 2}), typed({"": {"x": 3}, "x": 2})], "pseed": 11})
     descs.append({"jobs": [typed({"a": {"c": {}}}), typed({"a": {"c": {"x": 1}}}), typed({"a": {"c": {}}, "b": 0})], "pseed": 6})
     return descs
 
@@ -127,13 +129,31 @@ def coq_jobs(pairs):
 def run_case(desc):
     import random
 
-    import signac
-
     rng = random.Random(desc["pseed"])
     sps = [untyped(j) for j in desc["jobs"]]
-    cases = []
     with scratch_dir("c18") as d:
         project = qg.build_project(d, [{"sp": sp, "doc": None} for sp in sps])
+        cases = observe(project, rng, desc, "")
+        # phase 2: a change that keeps the number of jobs (in-place edit, or remove one job and add another), then the
+        # same calls on the SAME Project object
+        jobs = list(project)
+        if jobs:
+            victim = rng.choice(jobs)
+            if rng.random() < 0.5:
+                victim.sp["zz_new"] = rng.choice([1, "x", [1, 2], {"p": 1}])
+            else:
+                sp_new = dict(victim.sp(), zz_swapped=rng.choice([0, 1.0, "y"]))
+                victim.remove()
+                project.open_job(sp_new).init()
+            cases += observe(project, rng, desc, "phase2")
+    return cases
+
+
+def observe(project, rng, desc, phase):
+    import signac
+
+    cases = []
+    if True:
         recs = qg.listing(project)
         by_id = {r["id"]: r["sp"] for r in recs}
         ids = [r["id"] for r in recs]
@@ -171,7 +191,7 @@ def run_case(desc):
                 cases.append(Case(coq, {"jobs": [typed(by_id[i]) for i in order], "call": "detect_schema",
                                         "exclude_const": excl, "subset": sub is not None, "pseed": desc["pseed"]},
                                   obs=obs_desc, nontrivial=nontriv,
-                                  key=json.dumps([sorted(order), excl, "schema"]), kinds=["schema", "n=%d" % len(order)]))
+                                  key=json.dumps([sorted(order), excl, "schema", phase]), kinds=["schema", "n=%d" % len(order)] + ([phase] if phase else [])))
         # ---- diff cases
         selections = [ids]
         if len(ids) >= 2:
@@ -199,8 +219,8 @@ def run_case(desc):
                     pairs.append((i, by_id[i]))
             coq = "{| c18_jobs := %s; c18_excl := false; c18_schema_case := false; c18_obs := %s |}" % (coq_jobs(pairs), obs)
             cases.append(Case(coq, {"jobs": [typed(by_id[i]) for i in sel], "call": "diff_jobs", "pseed": desc["pseed"]},
-                              obs=obs_desc, nontrivial=nontriv, key=json.dumps([sel, "diff"]),
-                              kinds=["diff", "n=%d" % len(pairs)]))
+                              obs=obs_desc, nontrivial=nontriv, key=json.dumps([sel, "diff", phase]),
+                              kinds=["diff", "n=%d" % len(pairs)] + ([phase] if phase else [])))
     return cases
 
 
